@@ -162,12 +162,17 @@ class CFG:
             g.remove_nodes_from([id(w) if isinstance(w, ast.AST) else w for w in without])
         return a in g and b in g and nx.has_path(g, a, b)
 
-    def reachable_via(self, test: ast.If, label: bool, b) -> bool:
-        """Is b reachable when leaving `test` through the edge labelled `label`?"""
+    def reachable_via(self, test: ast.If, label: bool, b, without=()) -> bool:
+        """Is b reachable when leaving `test` through the edge labelled `label`?
+        `without`: nodes to cut (e.g. a loop header, to stay within one iteration)."""
         b = id(b) if isinstance(b, ast.AST) else b
+        g = self.g
+        if without:
+            g = g.copy()
+            g.remove_nodes_from([id(w) if isinstance(w, ast.AST) else w for w in without])
         for succ in self.g.successors(id(test)):
             if label in self.g[id(test)][succ].get('labels', ()):
-                if succ == b or nx.has_path(self.g, succ, b):
+                if succ == b or (succ in g and b in g and nx.has_path(g, succ, b)):
                     return True
         return False
 
